@@ -122,6 +122,23 @@ def run(chk):
     chk.evaluations += nq
     chk.extra["history_sequences"] = len(seqs)
     chk.extra["history_queries"] = nq
+    # which code point is resolved: the NEGOTIATED one (ServerHello), also when the client lists another suite first -- QUIC connections
+    # of every suite with the first offered suite different / GREASE; installed keys are compared with the RFC schedule of the negotiated suite
+    from checks import c02, c15
+    qb = c02.gen(chk, dict(SuiteSet='{"1301","1302","1303","1304"}', OfferFirst='{"other","grease"}', Splits='{<<1>>}', Retries="{FALSE}", ZeroRtts="{FALSE}", MaxApp="1", MaxGen="1"),
+                 20 if quick else 100, chk.seed)
+    seen_sf = {}
+    for b in qb:
+        seen_sf.setdefault((b["suite"], b["first"]), b)
+    from harness.core import pool_map
+    for res in pool_map(c15._quic, [(b, rng.randrange(1 << 30), dict(pnlen={"c": 2, "s": 2})) for b in seen_sf.values()]):
+        if "machinery" in res:
+            raise MachineryError("harness: " + res["machinery"])
+        chk.evaluations += 1
+        for b_ in res["bad"]:
+            chk.violation(f"QUIC connection negotiating {res['b']['suite']} while the client lists {res['b']['first']} first: {b_} (the negotiated code point must be the one resolved)",
+                          dict(behaviour=res["b"], seed=res["seed"], why=b_))
+    chk.extra["quic_negotiated_vs_first_offered_pairs"] = sorted(f"{a}/{b}" for a, b in seen_sf)
     chk.extra["accepted_code_points"] = accepted
     chk.extra["registry_entries"] = len(reg)
     chk.exhaustive = True
